@@ -25,6 +25,8 @@
 #include <valgrind/memcheck.h>
 #endif
 
+extern "C" char __executable_start, end; // linker-provided bounds of the (non-PIE) image
+
 namespace sim
 {
 bool g_asan_flavour =
@@ -610,6 +612,14 @@ std::string describe_addr(uintptr_t a)
             snprintf(buf, sizeof buf, "stack-of-member-%d", i);
             return buf;
         }
+    {
+        // the binary is linked -no-pie: static storage has the same address in every process
+        if (a >= (uintptr_t)&__executable_start && a < (uintptr_t)&end)
+        {
+            snprintf(buf, sizeof buf, "static-storage@0x%lx (a global or function-static object of the library)", (unsigned long)a);
+            return buf;
+        }
+    }
     return "encountering-thread-stack-or-other";
 }
 
